@@ -891,6 +891,8 @@ def tags(case, obs):
                 t.append("additional")
             if o["exc"]:
                 t.append("excluded-strat")
+    if why is None and shared_frame_hazard(case):
+        t.append("unfiltered-excluding-group-then-other-group-same-phase")
     if case.get("unknown"):
         t.append("unknown-injected:" + case["unknown"]["col"])
     sizes = set()
@@ -917,9 +919,27 @@ def tags(case, obs):
     return t
 
 
+def shared_frame_hazard(case):
+    """an unfiltered adding observation stratified by something with exclusions, followed (registration order) in the same
+    phase by an observation with a different (filter, stratifications) key"""
+    eff = [case["obs"][i] for k, i in case["order"] if k == "o" and case["obs"][i].get("via") != "observer"] + \
+          [o for o in case["obs"] if o.get("via") == "observer"]
+
+    def key(o):
+        return (str(o["filter"]), tuple(obs_strat_names(case, o)) if o["type"] == "add" else None)
+    for i, a in enumerate(eff):
+        if a["type"] != "add" or a["filter"] != []:
+            continue
+        if not any(exclusions(case, strat_by_name(case, n)) for n in obs_strat_names(case, a)):
+            continue
+        if any(b["when"] == a["when"] and key(b) != key(a) for b in eff[i + 1:]):
+            return True
+    return False
+
+
 # ---------------------------------------------------------------------------------------- generation
 
-FILTERS = [None, None, None, [], [], [["tracked", "==", True], ["y", ">", 2]], [["x", "<", 5.0]], [["y", ">=", 1]],
+FILTERS = [None, None, None, [], [], [], [], [["tracked", "==", True], ["y", ">", 2]], [["x", "<", 5.0]], [["y", ">=", 1]],
            [["g", "==", "a"]], [["pv", ">", 1.0]], [["tracked", "==", True], ["g", "!=", "b"]], [["x", ">=", 3.0]],
            [["tracked", "==", True]], [["h", "==", "u"], ["y", "<=", 4]], [["tracked", "==", False]]]
 TRAJ0 = {"p_edge": 0.25, "max_births": 0, "p_birth": 0.0, "p_change": 0.0, "p_untrack": 0.0}
@@ -975,6 +995,8 @@ def gen_case(rng, tier):
     cfg_default = None if rng.random() < 0.3 else [s for s in snames if rng.random() < 0.4]
     defaults = cfg_default or []
     obs = [gen_obs(rng, k, snames, defaults) for k in range(rng.randint(1, 6 if big else 4))]
+    if strats and rng.random() < 0.4:
+        crowd_phase(rng, case_strats=strats, cfg_excl=cfg_excl, obs=obs, snames=snames, defaults=defaults, big=big)
     steps = rng.randint(1, 6 if big else 4)
     traj = {"p_edge": 0.25, "max_births": rng.choice([1, 2, 3 if big else 2]), "p_birth": rng.choice([0.0, 0.3, 0.6]),
             "p_change": rng.choice([0.0, 0.2, 0.5]), "p_untrack": rng.choice([0.0, 0.15, 0.4])}
@@ -1025,6 +1047,54 @@ def gen_case(rng, tier):
         rng.shuffle(order)
     case["order"] = order
     return case
+
+
+def crowd_phase(rng, case_strats, cfg_excl, obs, snames, defaults, big):
+    """Several observation groups with DIFFERENT (filter, stratifications) keys in ONE phase, one of them unfiltered
+    (`pop_filter=""`: everybody, untracked included) and stratified by a stratification that has an excluded category.
+    The results context walks the groups of a phase over one shared per-event frame, in registration order: whatever one
+    group does to that frame (drop excluded simulants, filter) must not leak into the groups handled after it."""
+    phase = rng.choice(PH)
+    while len(obs) < 3:
+        obs.append(gen_obs(rng, len(obs), snames, defaults))
+    if big and rng.random() < 0.5:
+        obs.append(gen_obs(rng, len(obs), snames, defaults))
+    for o in obs:
+        if rng.random() < 0.85:
+            o["when"] = phase
+    s = rng.choice(case_strats)
+    if s.get("excl_code") is None and not cfg_excl.get(s["name"]):
+        cats = KINDS[s["kind"]][0]
+        if rng.random() < 0.5:
+            s["excl_code"] = [rng.choice(cats)]
+        else:
+            cfg_excl[s["name"]] = [rng.choice(cats)]
+    elif s.get("excl_code") == []:
+        s["excl_code"] = [rng.choice(KINDS[s["kind"]][0])]
+    adders = [o for o in obs if o["type"] == "add"]
+    a = rng.choice(adders) if adders else None
+    if a is None:
+        a = obs[0]
+        a.clear()
+        a.update({"name": "o0", "type": "add", "when": phase, "filter": [], "mod": 1, "rem": 0, "add": [], "exc": [], "agg": "len"})
+    a["filter"] = []
+    a["when"] = phase
+    a["add"] = sorted(set(a["add"]) | {s["name"]})
+    a["exc"] = [n for n in a["exc"] if n != s["name"]]
+    if rng.random() < 0.7:
+        a["mod"], a["rem"] = 1, 0
+    # the others: make sure at least one of them does NOT use s (a different group that must still see everybody)
+    others = [o for o in obs if o is not a]
+    b = rng.choice(others)
+    b["when"] = phase
+    if b["type"] == "add":
+        b["add"] = [n for n in b["add"] if n != s["name"]]
+        if s["name"] in defaults:
+            b["exc"] = sorted(set(b["exc"]) | {s["name"]})
+    # registration order: the unfiltered one first half of the time, otherwise left to the shuffle below
+    if rng.random() < 0.5:
+        i = obs.index(a)
+        obs.insert(0, obs.pop(i))
 
 
 def mk(pop, steps, strats, obs, **kw):
@@ -1093,6 +1163,24 @@ def boundary_cases():
     out.append(mk(2, 1, [S("xb", cats=["lo", "hi"])], [A("n")]))
     out.append(mk(2, 1, [S("g")], [A("n"), A("n", when="time_step")]))
     out.append(mk(2, 1, [S("g")], [A("n", add=["nostrat"])]))
+    # one phase, several observation groups over the same per-event frame, the first one unfiltered (pop_filter="") and
+    # stratified by a stratification with an excluded category: later groups must still see the simulants it dropped
+    for ph in PH:
+        out.append(mk(8, 3, [S("g", ["b"]), S("h2")],
+                      [A("everyone_by_g", when=ph, flt=[], add=["g"]), A("tracked_by_h", when=ph, add=["h2"]),
+                       A("tracked_total", when=ph, agg="sumy"), Cc("rows", when=ph, cols=["y"])],
+                      traj={"p_change": 0.3, "p_untrack": 0.15}, tseed=11))
+    out.append(mk(8, 3, [S("g"), S("xb")],
+                  [A("everyone_by_g", flt=[], add=["g"]), A("all_by_xb", flt=[], add=["xb"], agg="sumx"), Cc("all_rows", flt=[], cols=["x"]),
+                   A("some", flt=[["y", ">=", 1]])],
+                  cfg_excl={"g": ["a", "c"]}, traj={"p_change": 0.3, "p_untrack": 0.2, "p_birth": 0.4, "max_births": 1}, tseed=12))
+    out.append(mk(6, 3, [S("g", ["a"]), S("hp", ["uo"])],
+                  [A("by_both", when="time_step", flt=[], exc=[]), A("by_hp", when="time_step", flt=[], exc=["g"]),
+                   A("by_g", when="time_step", flt=[], exc=["hp"]), A("nobody_by", when="time_step", flt=[], exc=["g", "hp"], via="observer")],
+                  cfg_default=["g", "hp"], traj={"p_change": 0.4}, tseed=13))
+    out.append(mk(6, 2, [S("pvs", ["p1"]), S("g")],
+                  [Cc("rows_first", flt=[], cols=["pv"]), A("everyone_by_pvs", flt=[], add=["pvs"]), A("by_g", add=["g"]), Cc("rows_last", flt=[], cols=["pv"])],
+                  order=[["s", 0], ["s", 1], ["o", 0], ["o", 1], ["o", 2], ["o", 3]], traj={"p_change": 0.3}, tseed=14))
     # registration order: observations before stratifications, columns in a different order than the sorted names
     out.append(mk(5, 2, [S("xb"), S("g"), S("h2")], [A("n", add=["h2", "xb", "g"], agg="sumx")],
                   order=[["o", 0], ["s", 2], ["s", 0], ["s", 1]], traj={"p_change": 0.5}))
